@@ -58,9 +58,10 @@ fn expect_decrypt(ctx: &mut Ctx, d: &BigUint, ct: &[u8], msg: &[u8], lay: (Order
 fn enc_case(ctx: &mut Ctx, d: &BigUint, msg: &[u8], k: Option<&BigUint>, lay: (Order, bool), cls: &str) {
     let pk = r2::mul(d, &r2::g()).unwrap();
     // key objects by provenance (constructor / gen_keypair / Jacobian public point), rotating with the message length
-    let how = (msg.len() as u64 + lay.1 as u64) % 3;
+    // (not reduced modulo 3: the larger values select the crafted-Z variants of the Jacobian provenance)
+    let how = msg.len() as u64 + lay.1 as u64;
     ctx.class(provenance(how));
-    let mut pp = Prng::new(how + msg.len() as u64, "prov");
+    let mut pp = Prng::new(how % 3 + msg.len() as u64, "prov");
     let Some((lpk, _)) = lib_keys(d, how, &mut pp) else {
         ctx.violation("Sm2PublicKey::new:valid-point:not-ok", json!({"pk": hex::encode(r2::encode(&pk, false))}));
         return;
@@ -147,7 +148,7 @@ pub fn run(ctx: &mut Ctx) {
     for (n, ok) in r3::selftest() {
         ctx.selftest(&n, ok);
     }
-    ctx.require(&["annex_kat", "len_sweep", "fixed_k_exact", "free_k", "roundtrip", "ref_made_decrypts", "openssl_made_decrypts", "all_zero_msg", "leading_zero_msg", "long_msg", "kdf_counter_beyond_16_bits", "kdf", "kdf_klen_mod32=00", "c1c2c3_uncompressed", "c1c2c3_compressed", "c1c3c2_uncompressed", "c1c3c2_compressed", "klen_mod32=00", "key_from_constructor", "key_from_gen_keypair", "key_with_jacobian_public_point", "crafted_recipient_key", "crafted_c1_decrypts", "many_calls_one_process", "shared_point_coordinate_leading_zero"]);
+    ctx.require(&["annex_kat", "len_sweep", "fixed_k_exact", "free_k", "roundtrip", "ref_made_decrypts", "openssl_made_decrypts", "all_zero_msg", "leading_zero_msg", "long_msg", "kdf_counter_beyond_16_bits", "kdf", "kdf_klen_mod32=00", "c1c2c3_uncompressed", "c1c2c3_compressed", "c1c3c2_uncompressed", "c1c3c2_compressed", "klen_mod32=00", "key_from_constructor", "key_from_gen_keypair", "key_with_jacobian_public_point", "crafted_recipient_key", "crafted_c1_decrypts", "many_calls_one_process", "shared_point_coordinate_leading_zero", "recipient_key_with_crafted_stored_Z"]);
     let c = r2::curve();
 
     // --- Annex example
@@ -160,6 +161,42 @@ pub fn run(ctx: &mut Ctx) {
         ctx.sample(json!({"annex": {"msg": "encryption standard", "C1.x": "04EBFC71..9A73", "C3": "59983C18..8766", "C2": "21886CA9..1EFA"}}));
     }
 
+    // --- recipient key objects whose Jacobian Z has boundary words as STORED limbs (sm2x::lib_keys, provenance values
+    // 12 v + 5 select the five variants): exact ciphertext for an injected k, and the round trip
+    {
+        let mut pz = ctx.prng("crafted_z_keys");
+        for v in 0..5u64 {
+            for rep in 0..ctx.n(2, 12) {
+                let sub = pz.next();
+                if !ctx.mine(v * 16 + rep) {
+                    continue;
+                }
+                let mut q = Prng::new(sub, "cz");
+                let d = rand_scalar(&mut q, &(&c.n - 1u32));
+                let k = rand_scalar(&mut q, &c.n);
+                let mlen = 1 + q.below(40) as usize;
+                let msg = q.bytes(mlen);
+                let lay = LAYOUTS[q.below(4) as usize];
+                let pk = r2::mul(&d, &r2::g()).unwrap();
+                let Some((lpk, _)) = lib_keys(&d, 12 * v + 5, &mut q) else { continue };
+                ctx.eval();
+                ctx.class("recipient_key_with_crafted_stored_Z");
+                rng_prepare(&[&k]);
+                let o = guard(|| lpk.encrypt(&msg, lay.1, model(lay.0)));
+                let seen = rng_seen();
+                let w = json!({"d": hex::encode(r2::b32(&d)), "k": hex::encode(r2::b32(&k)), "msg": hx(&msg), "layout": layout_name(lay.0, lay.1), "Z_variant": v});
+                match (o, r2::encrypt(&pk, &msg, &k, lay.0, lay.1)) {
+                    (Outcome::Ret(Ok(ct)), Some(e)) if seen.accepted.last() == Some(&k) => {
+                        if ct != e {
+                            ctx.violation("encrypt:recipient_key_with_crafted_stored_Z:ciphertext-differs-from-standard", json!({"case": w, "expected": hx(&e), "actual": hx(&ct)}));
+                        }
+                    }
+                    (Outcome::Ret(Ok(_)), _) => {}
+                    (o, _) => ctx.violation(&format!("encrypt:recipient_key_with_crafted_stored_Z:{}", oc(&o)), w),
+                }
+            }
+        }
+    }
     // --- nonces searched (by the reference) so that a coordinate of the SHARED point [k]P begins with a zero byte (1 in 128):
     // x2 and y2 enter the KDF and C3 as fixed 32-byte strings, a conversion that drops leading zeros is wrong only here
     {
